@@ -92,6 +92,26 @@ PLANNED = {}
 ALL = ["C%02d" % i for i in range(1, 21)]
 
 
+# additions of the third session (DESIGN.md section 10), appended to the claimed level texts
+EXTRA = {
+    "C01": " The program counter must be exactly the specified one wherever that address can hold an instruction (modulo 2^32 only outside the instruction address space).",
+    "C03": " Plus deep histories (4-6 accesses incl. uncounted reads and a reset/reload, symbolic set and tag) from a reset cache: every read returns the flat value.",
+    "C04": " A second unreferenced own-line label whose name spells a mnemonic / pseudo-instruction / register / directive word is placed at every position: label names never change what is assembled.",
+    "C06": " Plus programs on a reused simulation object: every ordered pair of 5 TOY texts (data words symbolic), first run to completion (run / step / half-cycle API), second loaded on the same object and compared step by step with a fresh object.",
+    "C09": " Plus deep histories (4-6 accesses incl. uncounted reads and a reset/reload) from a reset cache against an executable reference cache (checks/cachestep.RefCache): hit verdict, counters and penalty after every access, resident tags / victim / policy state at the end.",
+    "C10": " Plus deep access histories through the real memory systems against the executable reference cache (resident block per way, next victim, LRU order / PLRU bits at the end).",
+    "C11": " Plus fetch / reset+reload histories from a fresh instruction cache against the executable reference cache, also over sparse instruction memories (holes inside a block).",
+    "C12": " Plus deep histories (incl. a reset/reload inside the history) from a reset cache: write-through backing memory current and resident blocks equal to backing, write-back backing differs only where resident and no written value is lost.",
+    "C15": " Plus token corruptions: every token of 31 RISC-V / 8 TOY line shapes replaced by, prefixed with and followed by each of 46 junk tokens (complete enumeration of that set).",
+    "C16": " Plus direct-mapped single-block cache configurations with a print-string ecall (uncounted reads that evict and write back) in the inspected-vs-never-inspected twin runs.",
+    "C17": " TOY program counter over all 12-bit values; memory table after a store that fails half-way at the top of the address space.",
+    "C18": " Third configuration: byte store with wrap-around whose first valid address is symbolic in [0, 2^20] (0 = the class default).",
+}
+for _k, _v in EXTRA.items():
+    CHECKS[_k]["text"] = CHECKS[_k]["text"] + _v
+TECH = TECH + "; every k-th verification condition re-decided by the cvc5 binary from an SMT-LIB2 export"
+
+
 def main():
     checks = []
     for pid in ALL:
